@@ -96,7 +96,7 @@ def sweep(s, ro, state_xml, ctx=None, after=None):
             else:
                 s.other['C15:accessor-raised'] += 1
             continue
-        if f['prop'] == s.prop:
+        if f['prop'] == s.prop or s.prop == 'C15':      # C15 = every accessor agrees with the document
             s.custom_violation('accessor-disagrees-with-xml',
                                {'accessor': '%s.%s' % (f['cls'], f['name']), 'got': f['got'], 'want': f['want']},
                                wit, msg_kind='%s.%s' % (f['cls'], f['name']))
